@@ -30,3 +30,25 @@ Definition source_savers : list (string * route) :=
 (* the hand-written table of MD.Cell.Formats describes exactly the formats the source registers *)
 Lemma format_table_matches_source : table_matches_source source_savers = true.
 Proof. vm_compute. reflexivity. Qed.
+
+(* the keyword arguments of the registered save_* methods: each is one of the options the table declares cell-neutral
+   (and that the runs exercise) *)
+Definition source_saver_options : list (string * list string) :=
+  [("save_xtc", ["force_overwrite"]);
+   ("save_trr", ["force_overwrite"]);
+   ("save_pdb", ["force_overwrite"; "bfactors"; "ter"; "header"]);
+   ("save_dcd", ["force_overwrite"]);
+   ("save_hdf5", ["mode"; "force_overwrite"]);
+   ("save_netcdf", ["force_overwrite"]);
+   ("save_netcdfrst", ["force_overwrite"]);
+   ("save_mdcrd", ["force_overwrite"]);
+   ("save_lh5", ["force_overwrite"]);
+   ("save_lammpstrj", ["force_overwrite"]);
+   ("save_xyz", ["force_overwrite"]);
+   ("save_gro", ["force_overwrite"; "precision"]);
+   ("save_amberrst7", ["force_overwrite"]);
+   ("save_dtr", ["force_overwrite"]);
+   ("save_gsd", ["force_overwrite"])].
+
+Lemma saver_options_known : options_known source_saver_options = true.
+Proof. vm_compute. reflexivity. Qed.
